@@ -1102,9 +1102,7 @@ fn should_show_arg(use_long: bool, arg: &Arg) -> bool {
     if arg.is_hide_set() {
         return false;
     }
-    (!arg.is_hide_long_help_set() && use_long)
-        || (!arg.is_hide_short_help_set() && !use_long)
-        || arg.is_next_line_help_set()
+    (!arg.is_hide_long_help_set() && use_long) || (!arg.is_hide_short_help_set() && !use_long)
 }
 
 fn should_show_subcommand(subcommand: &Command) -> bool {
